@@ -341,7 +341,35 @@ impl Campaign for C11 {
             ben_roles: &[crate::world::BenRole::PlainEoa, crate::world::BenRole::Sender],
             ..GenParams::default()
         };
-        let case = generate(&params, r.next());
+        let mut case = generate(&params, r.next());
+        // Some transactions call the precompiles directly with arguments aimed at code-less
+        // accounts (the empty account, the absent one, an EOA): only the facade can give such an
+        // account storage, empty it again (balance := 0 => EIP-161 removal, which also wipes that
+        // storage) and read the slot back later in the block.
+        if r.chance(2, 3) {
+            let l = case.layout.clone();
+            let mut txs = (*case.txs).clone();
+            let victims = [l.idx_empty(), l.idx_absent(), l.idx_empty(), 0u64];
+            for tx in txs.iter_mut() {
+                if !matches!(tx.kind, revm_primitives::TxKind::Call(_)) || tx.tx_type == 4 || !r.chance(2, 5) {
+                    continue;
+                }
+                let k = r.below(4);
+                let a = *r.pick(&victims);
+                let words = match k {
+                    0 => [a, *r.pick(&victims), r.below(case.slots), r.below(4)],
+                    1 => [a, r.below(case.slots), 0, 0],
+                    2 => [a, r.below(case.slots), r.below(4), *r.pick(&[0u64, 0, 1, 5])],
+                    _ => [a, 0, 0, 0],
+                };
+                tx.kind = revm_primitives::TxKind::Call(l.pc(k));
+                tx.value = U256::ZERO;
+                tx.data = crate::world::calldata(&words);
+            }
+            case.hash = crate::world::case_hash(case.spec, &case.db, &case.block, &txs, case.disable_nonce_check);
+            case.txs = Arc::new(txs);
+            rep.bump("blocks_with_direct_precompile_calls", 1);
+        }
         let stats = Arc::new(PcStats::default());
         let pcs = test_precompiles(&case.layout, case.slots, stats.clone());
         let pw = ProfileWeights {
